@@ -12,6 +12,7 @@ partial def loopHist (h : IO.FS.Stream) (out : IO.FS.Stream) (st : HState) : IO 
     out.putStrLn line.trimAscii.toString
     loopHist h out (if line.startsWith "# case" then {} else st)
   else
+    out.putStrLn ("> " ++ line.trimAscii.toString)
     let (st', outs) := stepLine st line
     for o in outs do
       out.putStrLn o
